@@ -21,7 +21,7 @@ func init() {
 	core.Register(&core.Check{
 		ID:    "C32",
 		Level: "model_checking",
-		Rule: "explicit-state search over real document bytes: initial documents = {3 pages flat, 4 pages in a nested tree whose first subtree defines inherited /Rotate 90 and MediaBox [0 0 300 400] while the later sibling subtree inherits from the root, 3 pages with per-page attributes}; operations (26): insert blank before/after x {1, l, even, 2-}, remove x {1, l, odd}, rotate x {90, 180, -90} x {all, 1, even}, trim x {2-, 1,l}, collect x {l,1 ; 1,1 ; 2-}, add trim box, remove trim box, crop x {all, 1}; breadth-first to depth 2 (quick) / 3 (thorough) with deduplication on the model state; after every transition the output is re-read with the harness's own page walker and compared with a page-list model (marker, rotation mod 360, MediaBox, CropBox, TrimBox); " +
+		Rule: "explicit-state search over real document bytes: initial documents = {3 pages flat, 4 pages in a nested tree whose first subtree defines inherited /Rotate 90 and MediaBox [0 0 300 400] while the later sibling subtree inherits from the root, 3 pages with per-page attributes, 3 pages sharing one indirect /MediaBox array and one /Resources dictionary}; operations (26): insert blank before/after x {1, l, even, 2-}, remove x {1, l, odd}, rotate x {90, 180, -90} x {all, 1, even}, trim x {2-, 1,l}, collect x {l,1 ; 1,1 ; 2-}, add trim box, remove trim box, crop x {all, 1}; breadth-first to depth 2 (quick) / 3 (thorough) with deduplication on the model state; after every transition the output is re-read with the harness's own page walker and compared with a page-list model (marker, rotation mod 360, MediaBox, CropBox, TrimBox); " +
 			"non-trivial = a transition from a non-initial state",
 		Assume: []string{"inserted blank pages: position, emptiness and MediaBox (that of the reference page) are demanded, their rotation is not (the statement does not fix it)", "selections are evaluated by the independent pagesel reference (C31)"},
 		Run:    runC32,
@@ -296,6 +296,14 @@ func runC32(r *core.R) {
 		{Marker: 2},
 		{Marker: 3, MediaBox: "[0 0 842 595]", Rotate: 270},
 	}, docgen.SimpleOpts{}).Bytes())
+	// pages whose /MediaBox is one shared array object and whose /Resources is one shared dictionary object
+	// (the way some producers write them): an operation that edits such an object in place for one page
+	// changes its siblings
+	for _, f := range docgen.Family(true) {
+		if f.Name == "numbering=dense,extra=shared-indirect-attrs/classic" {
+			inits = append(inits, f.Bytes)
+		}
+	}
 	type state struct {
 		doc   []byte
 		model []mpage
